@@ -183,13 +183,24 @@ for line in sys.stdin:
     for d in job["docs"]:
         try:
             doc = json.loads(d)
-            err = jsonschema.exceptions.best_match(v.iter_errors(doc))
+            errs = list(v.iter_errors(doc))
+            err = max(errs, key=jsonschema.exceptions.relevance) if errs else None
             if err is None:
                 out["docs"].append({"ok": True})
             else:
-                # the deepest error (anyOf reports its context)
+                # descend into anyOf: the branch the instance was meant for is the one whose errors do not include a
+                # failed constant / enumeration (discriminator) and that has the fewest errors
                 while err.context:
-                    err = sorted(err.context, key=lambda e: -len(e.absolute_path))[0]
+                    groups = {}
+                    for e in err.context:
+                        groups.setdefault(e.relative_schema_path[0] if e.relative_schema_path else 0, []).append(e)
+                    def score(es):
+                        # a branch of another JSON type altogether is the least likely addressee
+                        top = any(x.validator == "type" and len(x.relative_path) == 0 and
+                                  (not x.relative_schema_path or len(x.relative_schema_path) <= 3) for x in es)
+                        return (top, any(x.validator in ("const", "enum") for x in es), len(es))
+                    best = sorted(groups.items(), key=lambda kv: (score(kv[1]), kv[0]))[0][1]
+                    err = max(best, key=jsonschema.exceptions.relevance)
                 out["docs"].append({"ok": False, "kw": err.validator, "ipath": [str(p) for p in err.absolute_path],
                                     "spath": [str(p) for p in err.absolute_schema_path][-6:], "itype": tname(err.instance),
                                     "sval": json.dumps(err.validator_value)[:80]})
@@ -457,9 +468,10 @@ for d, _, fs in os.walk(root):
         if not f.endswith(".py"): continue
         p = os.path.join(d, f)
         try:
-            py_compile.compile(p, cfile=os.devnull, doraise=True)
+            compile(open(p, encoding="utf-8").read(), p, "exec", dont_inherit=True)
         except Exception as e:
-            res.append({"file": os.path.relpath(p, root), "stage": "py_compile", "msg": (type(e).__name__ + ": " + str(e))[-400:]})
+            res.append({"file": os.path.relpath(p, root), "stage": "py_compile",
+                        "msg": (type(e).__name__ + ": " + str(e))[-300:] + " | " + (getattr(e, "text", "") or "").strip()[:120]})
             continue
         rel = os.path.relpath(p, os.path.dirname(root))[:-3].replace(os.sep, ".")
         if rel.endswith(".__init__"): rel = rel[:-9]
@@ -480,6 +492,9 @@ print(json.dumps(res))
 
 
 PY_CLASSES = [
+    (r"typing\.Union\[\]", "empty-union-type"),
+    (r"IndentationError: expected an indented block after function definition.*", "function-without-body"),
+    (r"SyntaxError: duplicate argument .*", "duplicate-declaration"),
     (r"SyntaxError: .*|IndentationError: .*", "syntax-error"),
     (r"NameError: name 'unknown' is not defined", "placeholder-type-unknown"),
     (r"NameError: .*", "undefined-name"),
@@ -549,6 +564,7 @@ def java_check(ctx, javadir, timeout=600):
 
 
 JAVA_CLASSES = [
+    (r"enum constant expected here", "enum-member-name-not-an-identifier"),
     (r"cannot find symbol symbol: class unknown\b.*", "placeholder-type-unknown"),
     (r"cannot find symbol symbol: (class|variable) (UnknownDataquery|Registry|Dataquery|PanelConfig)\b.*", "foundation-sdk-class-missing"),
     (r"package com\.grafana\.foundation.* does not exist", "foundation-sdk-class-missing"),
